@@ -3,24 +3,30 @@
 (* the seeded flush-deadline rule and MUST violate AtLeastOnce (the          *)
 (* invariant discriminates); MC_AppSys_nosnap.cfg / _nogossip.cfg switch     *)
 (* off the shutdown snapshot / the gossip of the notification log and MUST   *)
-(* violate NoRepeatAfterRestart / NoDuplicateWhenHealthy.                    *)
+(* violate NoRepeatAfterRestart / NoDuplicateWhenHealthy.  Reloads:          *)
+(* MC_AppSys_reload*.cfg; RL = "stopfirst" (seeded C17-5) MUST violate        *)
+(* AtLeastOnce, RL = "apifirst" (seeded C07-4) MUST violate                   *)
+(* StatusShowsConfigInForce and ReceiversAgree.                               *)
 EXTENDS AppSys, Json
 
-NoFaults == [start |-> 0, stop |-> 0, kill |-> 0, post |-> 2, sil |-> 0, exp |-> 0]
-LateStart == [start |-> 1, stop |-> 0, kill |-> 0, post |-> 2, sil |-> 0, exp |-> 0]
-QStop == [start |-> 1, stop |-> 1, kill |-> 0, post |-> 2, sil |-> 1, exp |-> 0]
-QKill == [start |-> 1, stop |-> 0, kill |-> 1, post |-> 2, sil |-> 1, exp |-> 0]
-QFault == [start |-> 2, stop |-> 1, kill |-> 0, post |-> 2, sil |-> 0, exp |-> 0]
-SoloStop == [start |-> 1, stop |-> 1, kill |-> 0, post |-> 3, sil |-> 1, exp |-> 1]
-SoloKill == [start |-> 1, stop |-> 0, kill |-> 1, post |-> 3, sil |-> 1, exp |-> 0]
-Restarts == [start |-> 2, stop |-> 1, kill |-> 1, post |-> 3, sil |-> 1, exp |-> 1]
-FaultKill == [start |-> 2, stop |-> 0, kill |-> 1, post |-> 2, sil |-> 0, exp |-> 0]
+NoFaults == [start |-> 0, stop |-> 0, kill |-> 0, post |-> 2, sil |-> 0, exp |-> 0, rl |-> 0]
+LateStart == [start |-> 1, stop |-> 0, kill |-> 0, post |-> 2, sil |-> 0, exp |-> 0, rl |-> 0]
+QStop == [start |-> 1, stop |-> 1, kill |-> 0, post |-> 2, sil |-> 1, exp |-> 0, rl |-> 0]
+QKill == [start |-> 1, stop |-> 0, kill |-> 1, post |-> 2, sil |-> 1, exp |-> 0, rl |-> 0]
+QFault == [start |-> 2, stop |-> 1, kill |-> 0, post |-> 2, sil |-> 0, exp |-> 0, rl |-> 0]
+SoloStop == [start |-> 1, stop |-> 1, kill |-> 0, post |-> 3, sil |-> 1, exp |-> 1, rl |-> 0]
+SoloKill == [start |-> 1, stop |-> 0, kill |-> 1, post |-> 3, sil |-> 1, exp |-> 0, rl |-> 0]
+Restarts == [start |-> 2, stop |-> 1, kill |-> 1, post |-> 3, sil |-> 1, exp |-> 1, rl |-> 0]
+FaultKill == [start |-> 2, stop |-> 0, kill |-> 1, post |-> 2, sil |-> 0, exp |-> 0, rl |-> 0]
 
-OnePost == [start |-> 0, stop |-> 0, kill |-> 0, post |-> 1, sil |-> 0, exp |-> 0]
-GenRestart == [start |-> 2, stop |-> 1, kill |-> 1, post |-> 3, sil |-> 1, exp |-> 0]
-GenFaults == [start |-> 2, stop |-> 1, kill |-> 1, post |-> 4, sil |-> 1, exp |-> 1]
-GenHealthy == [start |-> 0, stop |-> 0, kill |-> 0, post |-> 4, sil |-> 0, exp |-> 0]
+OnePost == [start |-> 0, stop |-> 0, kill |-> 0, post |-> 1, sil |-> 0, exp |-> 0, rl |-> 0]
+GenRestart == [start |-> 2, stop |-> 1, kill |-> 1, post |-> 3, sil |-> 1, exp |-> 0, rl |-> 0]
+QReload == [start |-> 0, stop |-> 0, kill |-> 0, post |-> 2, sil |-> 0, exp |-> 0, rl |-> 2]
+TReload == [start |-> 1, stop |-> 1, kill |-> 0, post |-> 2, sil |-> 0, exp |-> 0, rl |-> 3]
+GenReload == [start |-> 0, stop |-> 0, kill |-> 0, post |-> 4, sil |-> 0, exp |-> 0, rl |-> 3]
+GenFaults == [start |-> 2, stop |-> 1, kill |-> 1, post |-> 4, sil |-> 1, exp |-> 1, rl |-> 0]
+GenHealthy == [start |-> 0, stop |-> 0, kill |-> 0, post |-> 4, sil |-> 0, exp |-> 0, rl |-> 0]
 
-View == <<now, life, upAt, rdy, has, sv, due, pend, nfl, snapN, snapS, mt, net, cnt,
-          pos, sent, gen, since, owe, told, healthy, posted, expired>>
+View == <<now, life, upAt, rdy, has, sv, due, pend, nfl, snapN, snapS, mt, net, cnt, cfg, api, file,
+          pos, rcv, grp, sent, gen, since, owe, told, healthy, posted, expired, inforce, prevc, chg, lastrl>>
 =============================================================================
